@@ -6,7 +6,7 @@ link sits at a drawn position (list index, dict key, union branch), optional sib
 families: the same shapes scaled in depth, valid and with one invalid leaf at the bottom; every node carries a
 leaf of a harness class whose registered converter increments a counter.
 Oracle: (1) with max_depth = d: accepted <=> D <= d, for every position; cyclic input => ParseError whenever
-max_depth is set.  (2) work (leaf conversions of one top-level call) <= 8 * L**2, L = leaves in the input.
+max_depth is set.  (2) work (leaf conversions of one top-level call) <= L**2 + 8, L = leaves in the input (valid parses measure exactly L).
 The (shape x position x D x max_depth) grid is enumerated exhaustively on every run.
 """
 import itertools
@@ -25,7 +25,7 @@ RULE = ("grid: shape x link position x chain depth D in 1..6 x max_depth in {Non
 ASSUMPTIONS = [
     "nesting depth of an input = number of data-class levels on the longest chain, the top-level instance counting as 1 (docs example: max_depth=3 refuses the 4th level)",
     "work = number of invocations of the converter registered for the harness class Leaf during one top-level call (deterministic, no wall clock)",
-    "polynomial bound checked: work <= 8 * L**2 (valid parses measure exactly L)",
+    "polynomial bound checked: work <= L**2 + 8 (valid parses measure exactly L, so 2**depth crosses the bound at depth 8)",
 ]
 SHARDS = {"quick": 2, "thorough": 8}
 
@@ -150,10 +150,18 @@ def judge_depth(case):
     shape, D, d, positions = case["shape"], case["D"], case.get("max_depth"), case.get("positions") or [None]
     if shape not in SHAPES or not isinstance(D, int) or not 1 <= D <= 12:
         raise HarnessError("bad depth case")
-    mod, N = declare(shape, d, base=case.get("base", "Schema"))
+    how = case.get("limit_from", "class")
+    if how not in ("class", "runtime-override"):
+        raise HarnessError("bad limit_from")
+    # runtime-override: the class declares another limit (or none); Options(max_depth=d, override=True) passed to __from__ governs every level
+    mod, N = declare(shape, d if how == "class" else case.get("class_limit"), base=case.get("base", "Schema"))
     try:
         x = chain(shape, D, positions, siblings=case.get("siblings", 0))
-        out = oracle.outcome(N.__from__, x)
+        if how == "class":
+            out = oracle.outcome(N.__from__, x)
+        else:
+            import utype
+            out = oracle.outcome(N.__from__, x, utype.Options(max_depth=d, override=True) if d else utype.Options(override=True))
         if out[0] in ("other", "hang"):
             return {"status": "other", "fails": []}
         want = d is None or D <= d
@@ -162,8 +170,9 @@ def judge_depth(case):
         if (out[0] == "ok") != want:
             kind = "accepts-deeper-than-max_depth" if out[0] == "ok" else "rejects-within-max_depth"
             falsy = any(p in (0, "") for p in positions)
-            fails.append((f"depth/{kind}/{shape}/{'falsy-position' if falsy else 'position'}",
-                          {"D": D, "max_depth": d, "positions": pos, "error": None if out[0] == "ok" else str(out[1])[:200]}))
+            fails.append((f"depth/{kind}/{shape}/{'falsy-position' if falsy else 'position'}{'' if how == 'class' else '/' + how}",
+                          {"D": D, "max_depth": d, "positions": pos, "limit_from": how, "class_limit": case.get("class_limit"),
+                           "error": None if out[0] == "ok" else str(out[1])[:200]}))
         return {"status": "accepted" if out[0] == "ok" else "rejected", "fails": fails}
     finally:
         undeclare(mod)
@@ -223,8 +232,8 @@ def judge_cost(case):
         fails = []
         if (out[0] == "ok") == bad:
             fails.append((f"cost/verdict/{shape}", {"D": D, "bad": bad, "got": out[0]}))
-        if w > 8 * L * L:
-            fails.append((f"cost/superpolynomial-work/{shape}/{'invalid-leaf' if bad else 'valid'}", {"D": D, "L": L, "work": w, "bound": 8 * L * L}))
+        if w > L * L + 8:
+            fails.append((f"cost/superpolynomial-work/{shape}/{'invalid-leaf' if bad else 'valid'}", {"D": D, "L": L, "work": w, "bound": L * L + 8}))
         return {"status": out[0], "fails": fails, "work": w, "L": L}
     finally:
         undeclare(mod)
@@ -270,7 +279,7 @@ def campaign(ctx):
                 ctx.nt(case)
                 ctx.sample("cost", dict(case, work=r.get("work"), leaves=r.get("L")))
             if r.get("work") is not None:
-                ctx.label("work_le_L" if r["work"] <= r["L"] else "work_le_8L2" if r["work"] <= 8 * r["L"] ** 2 else "work_gt_8L2")
+                ctx.label("work_le_L" if r["work"] <= r["L"] else "work_le_L2" if r["work"] <= r["L"] ** 2 + 8 else "work_gt_L2")
         else:
             ctx.nt(case)
             ctx.sample("cycle", case)
@@ -286,12 +295,17 @@ def campaign(ctx):
         for d in (1, 2, 4):
             for cyc in ("self", "two"):
                 grid.append({"part": "cycle", "shape": shape, "max_depth": d, "cycle": cyc})
-    maxD = 10 if ctx.thorough else 7
+    for shape in SHAPES:
+        for pos in POSITIONS[shape][:2]:
+            for D in range(1, 6):
+                for d, c in ((1, None), (2, None), (3, None), (2, 4), (4, 2), (3, 1)):
+                    grid.append({"part": "depth", "shape": shape, "D": D, "max_depth": d, "positions": [pos], "limit_from": "runtime-override", "class_limit": c})
+    maxD = 12 if ctx.thorough else 9
     for shape in SHAPES:
         for D in range(1, maxD + 1):
             for bad in (False, True):
-                if shape in ("union_first", "union_last", "opt") and D > (8 if ctx.thorough else 7):
-                    continue
+                if shape in ("union_first", "union_last", "opt") and bad and D > (8 if ctx.thorough else 7):
+                    continue   # known 3**d family (KF-C18-03): deeper only costs time
                 grid.append({"part": "cost", "shape": shape, "D": D, "bad": bad, "breadth": 0})
         for D in (3, 5):
             for bad in (False, True):
@@ -312,8 +326,9 @@ def campaign(ctx):
         st.fixed_dictionaries({"part": st.just("depth"), "shape": st.sampled_from(SHAPES), "D": st.integers(1, 6),
                                "max_depth": st.sampled_from([None, 1, 2, 3, 4, 5]), "siblings": st.integers(0, 2),
                                "base": st.sampled_from(["Schema", "Schema", "DataClass"]),
-                               "positions": st.lists(st.sampled_from([0, 1, 2, "", "k", "0", "x y"]), min_size=1, max_size=5)}),
-        st.fixed_dictionaries({"part": st.just("cost"), "shape": st.sampled_from(SHAPES), "D": st.integers(1, 6), "bad": st.booleans(),
+                               "positions": st.lists(st.sampled_from([0, 1, 2, "", "k", "0", "x y"]), min_size=1, max_size=5),
+                               "limit_from": st.sampled_from(["class", "class", "runtime-override"]), "class_limit": st.sampled_from([None, 1, 3, 5])}),
+        st.fixed_dictionaries({"part": st.just("cost"), "shape": st.sampled_from(SHAPES), "D": st.integers(1, 9), "bad": st.booleans(),
                                "breadth": st.integers(0, 3), "base": st.sampled_from(["Schema", "DataClass"])}),
     )
     ctx.run_given(rand, body, max_examples=ctx.n(1500, 8000))
